@@ -123,6 +123,59 @@ def run_identity_defaults(case):
   return obs, None
 
 
+class _Scaler:
+  def __init__(self, k):
+    self.k = k
+
+  def apply(self, x, y=4, *rest, z=0):
+    return ('apply', self.k, x, y, list(rest), z)
+
+  @classmethod
+  def make(cls, x, y=4):
+    return ('make', cls.__name__, x, y)
+
+  @staticmethod
+  def stat(x, y=4):
+    return ('stat', x, y)
+
+
+def run_method_forms(case):
+  """One function configured through several of its forms in one process, in a given order: the plain
+  function (instance passed explicitly), bound methods of two instances, the classmethod and its
+  underlying function, a static method. Each build equals its own direct call."""
+  s1, s2 = _Scaler(2), _Scaler(3)
+  forms = {
+      'unbound': (lambda: fdl.Config(_Scaler.apply, s1, 3), lambda: _Scaler.apply(s1, 3)),
+      'bound': (lambda: fdl.Config(s1.apply, 3), lambda: s1.apply(3)),
+      'bound_kw': (lambda: fdl.Config(s2.apply, 5, y=6, z=7), lambda: s2.apply(5, y=6, z=7)),
+      'bound_var': (lambda: fdl.Config(s2.apply, 5, 6, 7, 8), lambda: s2.apply(5, 6, 7, 8)),
+      'unbound_kw': (lambda: fdl.Config(_Scaler.apply, s2, x=1, z=9), lambda: _Scaler.apply(s2, x=1, z=9)),
+      'classmethod': (lambda: fdl.Config(_Scaler.make, 1), lambda: _Scaler.make(1)),
+      'class_func': (lambda: fdl.Config(_Scaler.make.__func__, _Scaler, 1, y=2), lambda: _Scaler.make.__func__(_Scaler, 1, y=2)),
+      'static': (lambda: fdl.Config(_Scaler.stat, 1), lambda: _Scaler.stat(1)),
+      'static_cls': (lambda: fdl.Config(s1.stat, y=1, x=2), lambda: s1.stat(y=1, x=2)),
+  }
+  built, direct, views = [], [], []
+  for name in case['order']:
+    mk, call = forms[name]
+    direct.append(repr(call()))
+    try:
+      cfg = mk()
+      views.append(repr(cfg))
+      built.append(repr(fdl.build(cfg)))
+    except Exception as e:
+      built.append(f'raised {type(e).__name__}: {e}'[:160])
+  return {'identity_defaults': True, 'how': 'forms of one function in the order ' + ' '.join(case['order']),
+          'cfg': views, 'direct': direct, 'built': built}, None
+
+
+METHOD_FORM_ORDERS = [
+    ['unbound', 'bound', 'bound_kw', 'bound_var'], ['bound', 'unbound', 'unbound_kw', 'bound_var'],
+    ['class_func', 'classmethod', 'static', 'static_cls'], ['classmethod', 'class_func', 'bound_kw', 'unbound'],
+    ['bound_var', 'unbound_kw', 'static_cls', 'static', 'bound'],
+]
+
+
 def identity_default_cases(tier, r):
   for _ in range(150 if tier == 'quick' else 3000):
     yield 'identity_defaults', {'identity_defaults': True, 'seed': r.getrandbits(48),
@@ -148,6 +201,8 @@ def cases(tier, r):
   yield from _cases(tier, r)
   yield from identity_default_cases(tier, r)
   yield from _delegated_cases(tier, r)
+  for order in METHOD_FORM_ORDERS:
+    yield 'method_forms', {'method_forms': True, 'order': order}
 
 
 def _cases(tier, r):
@@ -205,6 +260,8 @@ def execute(case):
     return real, req
   if case.get('identity_defaults'):
     return run_identity_defaults(case)
+  if case.get('method_forms'):
+    return run_method_forms(case)
   if case.get('graph'):
     # nested Buildables inside lists, tuples, dicts and named tuples: compare fdl.build with
     # the direct evaluation (harness/graphs.py::ref_build); the model side is Graph.build
@@ -319,7 +376,7 @@ def nontrivial(case, real):
     k = importlib.import_module('harness.props.' + case['delegate']).nontrivial(case['case'], real)
     return None if k is None else ('via', _json.dumps(k, default=str))
   if real.get('identity_defaults'):
-    return ('identity_defaults', case['fn'], case['how'], real['built'] == 'err')
+    return ('identity_defaults', case.get('fn'), case.get('how', real.get('how')), real['built'] == 'err')
   if 'ref_canon' in real:
     return ('nested', case['seed']) if 'raised' not in real['build'] else None
   if real['init'] == 'err':
